@@ -70,3 +70,58 @@ func GenDomainsCrawl(t *Tape) *Scenario {
 	g.Sc.Sched.MaxSimSec = 6 * 3600
 	return g.Sc
 }
+
+// GenQueuePileUp draws the scenario of a queue outage that lasts longer than the queue client's buffers hold (C15):
+// with crawl HQ, a hub page with an odd number of outlinks, batches of two and a run of failing add calls; with the
+// local queue, a dozen plain seeds finishing while delete calls fail. Everything the pipeline handed over must still
+// arrive once the outage is over (a partial batch waiting for its timer included).
+func GenQueuePileUp(t *Tape, hq bool) *Scenario {
+	g := NewGen(t, "queue-pile-up", "C15")
+	c := &crawlGen{Gen: g, o: CrawlOpts{Prop: "C15"}}
+	cfg := &g.Sc.Cfg
+	cfg.MaxConcurrentAssets = 1
+	cfg.MaxRedirect = 2
+	cfg.PoolSize = 1
+	cfg.DiscardStatus = []int{429}
+	cfg.Seencheck = c.Chance(1, 2)
+	if hq {
+		cfg.UseHQ = true
+		cfg.Workers = 1 + c.N(3)
+		cfg.MaxHops = 1
+		cfg.HQBatchSize = 2
+		host := c.Host()
+		n := 5 + 2*c.N(5) // odd: one outlink is left in a partial batch
+		var outs []string
+		for i := 0; i < n; i++ {
+			op := "/" + c.Name("leaf") + ".html"
+			c.res(host, op, "", 0, MustEnd, OK("text/html", Lit("<html><body>leaf "+c.Name("l")+"</body></html>"))).Tags["outlink-of"] = URL(host, "/hub/")
+			outs = append(outs, op)
+		}
+		c.reliable = true
+		c.page(host, "/hub/", URL(host, "/hub/"), 0, cfg, outs)
+		c.reliable = false
+		g.Sc.Queue = append(g.Sc.Queue, c.row(URL(host, "/hub/")))
+		plan := &HQPlan{Faults: map[string][]string{}}
+		for i, k := 0, 8+c.N(10); i < k; i++ {
+			plan.Faults["add"] = append(plan.Faults["add"], c.Pick("500", "500", "reset-before", "timeout"))
+		}
+		g.Sc.HQ = plan
+	} else {
+		cfg.Workers = 2 + c.N(2)
+		for i, n := 0, 5*cfg.Workers+1+c.N(4); i < n; i++ {
+			host := c.Host()
+			p := "/" + c.Name("plain")
+			v := URL(host, p)
+			c.res(host, p, v, 0, Must, OK("text/html", Lit("<html><body>hello "+c.Name("w")+"</body></html>")))
+			g.Sc.Queue = append(g.Sc.Queue, c.row(v))
+		}
+		g.Sc.LQFaults = map[string][]string{}
+		for i, k := 0, 12+c.N(12); i < k; i++ {
+			g.Sc.LQFaults["delete"] = append(g.Sc.LQFaults["delete"], "err")
+		}
+	}
+	g.Sc.StopAtIdle = true
+	g.Sc.Sched.MaxSteps = 200000
+	g.Sc.Sched.MaxSimSec = 4 * 3600
+	return g.Sc
+}
